@@ -51,6 +51,10 @@ pub fn run_zinoma(cwd: &Path, args: &[&str], timeout: Duration) -> RunOut {
             }
         }
     };
+    // a script outliving a killed zinoma keeps the pipes open: never join the readers of a timed-out run
+    if timed_out {
+        return RunOut { code: None, stdout: String::new(), stderr: "<timed out>".into(), timed_out };
+    }
     RunOut { code: status.and_then(|s| s.code()), stdout: ho.join().unwrap_or_default(), stderr: he.join().unwrap_or_default(), timed_out }
 }
 
@@ -385,6 +389,9 @@ pub enum Inv {
     RootDotSlash,       // -p ./R from the parent
     RootSymlinked,      // -p Rlink
     OwnDirSymlinked,    // -p Rlink/c
+    RootAbsolute,       // -p /abs/R
+    RootAbsoluteDotDot, // -p /abs/R/c/../../R
+    OwnDirAbsoluteLink, // -p /abs/Rlink/c
     Other,              // other
     Bad,                // bad (fails)
     CleanOther,         // --clean other
@@ -397,11 +404,11 @@ pub enum Inv {
 pub fn inv_alphabet() -> Vec<Inv> {
     use Inv::*;
     // (rewriting t's input with the same content is left out: the statement allows either decision then)
-    vec![RootQualified, RootUse, OwnDirBare, OwnDirQualified, RootRelative, RootDotSlash, RootSymlinked, OwnDirSymlinked, Other, Bad, CleanOther, CleanUse, EditOtherInput, EditTInput]
+    vec![RootQualified, RootUse, OwnDirBare, OwnDirQualified, RootRelative, RootDotSlash, RootSymlinked, OwnDirSymlinked, RootAbsolute, RootAbsoluteDotDot, OwnDirAbsoluteLink, Other, Bad, CleanOther, CleanUse, EditOtherInput, EditTInput]
 }
 fn reaches_t(i: Inv) -> bool {
     use Inv::*;
-    matches!(i, RootQualified | RootUse | OwnDirBare | OwnDirQualified | RootRelative | RootDotSlash | RootSymlinked | OwnDirSymlinked | CleanUse)
+    matches!(i, RootQualified | RootUse | OwnDirBare | OwnDirQualified | RootRelative | RootDotSlash | RootSymlinked | OwnDirSymlinked | RootAbsolute | RootAbsoluteDotDot | OwnDirAbsoluteLink | CleanUse)
 }
 
 fn build_c18_tree(base: &Path, named_root: bool, trace: &Path) {
@@ -436,6 +443,9 @@ fn perform(base: &Path, inv: Inv, seq: usize) -> Option<RunOut> {
         RootDotSlash => run_zinoma(base, &["-p", "./R/../R", "c::t"], t),
         RootSymlinked => run_zinoma(base, &["-p", "Rlink", "c::t"], t),
         OwnDirSymlinked => run_zinoma(base, &["-p", "Rlink/c", "t"], t),
+        RootAbsolute => run_zinoma(base, &["-p", &lossy(&base.join("R")), "c::t"], t),
+        RootAbsoluteDotDot => run_zinoma(base, &["-p", &lossy(&base.join("R/c/../../R")), "c::t"], t),
+        OwnDirAbsoluteLink => run_zinoma(base, &["-p", &lossy(&base.join("Rlink/c")), "t"], t),
         Other => run_zinoma(base, &["-p", "R", "other"], t),
         Bad => run_zinoma(base, &["-p", "R", "bad"], t),
         CleanOther => run_zinoma(base, &["-p", "R", "--clean", "other"], t),
@@ -468,8 +478,8 @@ pub fn check_c18(rep: &mut Report) {
         for &a in &alpha {
             seqs.push(vec![a, e]);
             for &b in &alpha {
-                if !thorough && !(reaches_t(a) || reaches_t(b)) {
-                    continue; // quick: at least one earlier step touches t
+                if !thorough && !(reaches_t(a) && reaches_t(b)) && !(matches!(a, Inv::EditTInput | Inv::CleanUse | Inv::Bad | Inv::CleanOther) && reaches_t(b)) && !(reaches_t(a) && matches!(b, Inv::EditTInput | Inv::CleanUse | Inv::Bad | Inv::CleanOther | Inv::Other | Inv::EditOtherInput)) {
+                    continue; // quick: both earlier steps are about t, or one is and the other is an edit/clean/failure
                 }
                 seqs.push(vec![a, b, e]);
             }
@@ -578,6 +588,6 @@ pub fn check_c18(rep: &mut Report) {
     rep.set("invocations_of_the_real_binary", json!(runs));
     rep.set("final_decisions_skipped", json!(skips));
     rep.set("exhaustive", json!(true));
-    rep.set("bounds", json!({"alphabet": alpha.iter().map(|i| format!("{:?}", i)).collect::<Vec<_>>(), "sequences": if thorough { "all of length <=3 ending in a way of reaching t" } else { "all of length <=2, and of length 3 with at least one earlier step touching t, ending in a way of reaching t" }, "root": "unnamed and named r"}));
+    rep.set("bounds", json!({"alphabet": alpha.iter().map(|i| format!("{:?}", i)).collect::<Vec<_>>(), "sequences": if thorough { "all of length <=3 ending in a way of reaching t" } else { "all of length <=2, and of length 3 where both earlier steps reach t or one does and the other is an edit / clean / failing sibling, ending in a way of reaching t" }, "root": "unnamed and named r"}));
     rep.set("rule", json!("states = distinct sequences by their full decision log; transitions = invocations of the real binary"));
 }
